@@ -127,6 +127,8 @@ def run_real(text: Any, padding: bool, symbolic: bool):
     except ValueError:
         return "error", "ValueError"
     except Budget:
+        if Ctx.cur is not None:
+            Ctx.cur.steps = 0  # spent; what follows (reference model, model extraction) gets a new budget
         return "raised", "no result within the step / wall-clock budget (non-terminating?)"
     except Exception as e:
         return "raised", type(e).__name__
